@@ -171,13 +171,18 @@ pub fn run(case: &J) -> J {
             vars.insert(n.to_string(), opt_to_json(v));
         }
     }
+    // C01/C08: do the final event and metadata belong to the kinds the compiler reports for the end of the program?
+    let fti = program.final_type_info();
+    let type_ok = json!({"event": vrl_verif_harness::member::member(&target.value, fti.state.external.target_kind()),
+                         "meta": vrl_verif_harness::member::member(&target.metadata, fti.state.external.metadata_kind()),
+                         "event_kind": fti.state.external.target_kind().to_string().chars().take(300).collect::<String>()});
     let info = program.info();
     let o1 = outcome(r1);
     let o2 = outcome(r2);
     json!({"compile": "ok", "warnings": diags_json(&res.warnings, src.len()),
            "result": o1, "consistent": faults_of(case).first().copied().unwrap_or(false) || (o1 == o2 && target.value == target2.inner.value && target.metadata == target2.inner.metadata),
            "log": log,
-           "event": to_json(&target.value), "meta": to_json(&target.metadata), "vars": J::Object(vars),
+           "event": to_json(&target.value), "meta": to_json(&target.metadata), "vars": J::Object(vars), "type_ok": type_ok,
            "info": {"fallible": info.fallible, "abortable": info.abortable,
                     "queries": info.target_queries.iter().map(tp_json).collect::<Vec<_>>(),
                     "assignments": info.target_assignments.iter().map(tp_json).collect::<Vec<_>>()}})
